@@ -220,7 +220,7 @@ ADDENDA = {
     "C14": (" Also: events for closing-statement, credit-card and empty statement requests and for a server that never answers; profile variants (banking only, moving URL); a second client without a cookie jar; a client re-configured by assignment between requests; case-sensitive URLs.", None),
     "C15": (" Also: a second live client of the same institution in the history search (21 events), the search again at DEBUG; a re-pointed client and ORG-only / FID-only pairs in the two-server phase; schedules at line granularity inside Client.py.", None),
     "C16": (" Also: shapes with falsy values, the MAXS shape at DEBUG, copies of read-back instances, shortcuts re-read after the tree was edited, wrappers without a statement.", None),
-    "C17": (" As built: 49 operations (documents, trees, converters probed wide / narrow, end-tag-less writer, a shared client with per-call overrides, header edited between parses, ofxget readers given non-OFX answers, failing parses).", "2-3 threads; line, call and first-visit granularities as listed in the evidence; C extensions are atomic to the scheduler; capped pairs are counted in the evidence."),
+    "C17": (" As built: 50 operations (documents, trees, converters probed wide / narrow, end-tag-less writer, a shared client with per-call overrides, header edited between parses, ofxget readers given non-OFX answers, failing parses).", "2-3 threads; line, call and first-visit granularities as listed in the evidence; C extensions are atomic to the scheduler; capped pairs are counted in the evidence."),
     "C18": ("", None),
     "C19": (" Also: --all for a configured nickname (by URL or OFX Home id): every subset of configured types without an ACTIVE account, ids with blanks, one number under several types, runs with -v -v.", "One bank id / broker id per run; --all runs use --skipprofile."),
     "C20": (" Also: every function x every class of refused argument followed by a re-check of 12 valid ids; consonants and digits as replacement check characters.", None),
